@@ -375,6 +375,22 @@ func (a *act) typeAssert(x *ssa.TypeAssert, st *State, reach Term) Val {
 				}
 			}
 		}
+		if !isIntLit(tag.S) {
+			// unknown dynamic type: for every type that has a tag, the answer is the static one (types that get their
+			// tag later stay undetermined); with a sealed source interface this makes type switches exhaustive
+			iface := x.AssertedType.Underlying().(*types.Interface)
+			for _, it := range e.sealedImplementors(x.X.Type()) {
+				e.typeTag(it)
+			}
+			for k, tt := range e.tagTypes {
+				is := eq(tag, intLit(int64(k+1)))
+				if types.Implements(tt, iface) {
+					e.cur.log.assert(implies(is, ok))
+				} else {
+					e.cur.log.assert(implies(is, not(ok)))
+				}
+			}
+		}
 		ok = and(ok, app(SBool, "distinct", tag, intLit(0)))
 		res = Val{Typ: x.AssertedType, T: []Term{tag, pay}, Ext: v.Ext}
 	} else {
